@@ -173,9 +173,22 @@ func (t *sseClientTransport) start(ctx context.Context) error {
 		}
 	}
 
-	// Send the request.
+	// Send the request. The stream outlives this call, but the connect belongs to it: when the caller's
+	// context ends before the response headers are there, the attempt is given up.
+	connected := make(chan struct{})
+	go func() {
+		select {
+		case <-ctx.Done():
+			cancel()
+		case <-connected:
+		}
+	}()
 	resp, err := t.httpReqHandler.Handle(sseCtx, t.httpClient, req)
+	close(connected)
 	if err != nil {
+		if ctx.Err() != nil {
+			return fmt.Errorf("context cancelled while connecting: %w", ctx.Err())
+		}
 		return fmt.Errorf("%w: %v", ErrHTTPRequestFailed, err)
 	}
 
